@@ -11,6 +11,7 @@ import (
 	"os"
 	"path/filepath"
 	"sort"
+	"strings"
 	"strconv"
 	"sync"
 	"time"
@@ -33,10 +34,44 @@ func Repo() string {
 }
 
 type Finding struct {
-	ID        string `json:"id"`
-	Property  string `json:"property"`
-	Signature string `json:"signature"`
-	What      string `json:"what"`
+	ID         string   `json:"id"`
+	Property   string   `json:"property"`
+	Signature  string   `json:"signature,omitempty"`
+	Signatures []string `json:"signatures,omitempty"` // '*' matches any run of characters
+	What       string   `json:"what"`
+	Witness    string   `json:"witness,omitempty"`
+}
+
+func (f Finding) matches(sig string) bool {
+	if f.Signature != "" && wildMatch(f.Signature, sig) {
+		return true
+	}
+	for _, p := range f.Signatures {
+		if wildMatch(p, sig) {
+			return true
+		}
+	}
+	return false
+}
+
+// wildMatch: '*' in pattern matches any (possibly empty) run of characters.
+func wildMatch(pattern, s string) bool {
+	parts := strings.Split(pattern, "*")
+	if len(parts) == 1 {
+		return pattern == s
+	}
+	if !strings.HasPrefix(s, parts[0]) {
+		return false
+	}
+	s = s[len(parts[0]):]
+	for i := 1; i < len(parts)-1; i++ {
+		k := strings.Index(s, parts[i])
+		if k < 0 {
+			return false
+		}
+		s = s[k+len(parts[i]):]
+	}
+	return strings.HasSuffix(s, parts[len(parts)-1])
 }
 
 type findingsFile struct {
@@ -185,7 +220,7 @@ func (r *Run) Violate(sig, what string, witness interface{}) {
 	r.mu.Lock()
 	defer r.mu.Unlock()
 	for _, k := range r.known {
-		if k.Signature == sig {
+		if k.matches(sig) {
 			if _, ok := r.knownFired[k.ID]; !ok {
 				r.knownFired[k.ID] = k.What
 			}
@@ -210,7 +245,7 @@ func (r *Run) Violations() int {
 // KnownSig reports whether sig is a recorded finding for this property.
 func (r *Run) KnownSig(sig string) bool {
 	for _, k := range r.known {
-		if k.Signature == sig {
+		if k.matches(sig) {
 			return true
 		}
 	}
